@@ -121,8 +121,12 @@ class HTTP2Connection(ConnectionInterface):
                 )
                 self._max_streams_semaphore = Semaphore(local_settings_max_streams)
 
-                for _ in range(local_settings_max_streams - self._max_streams):
-                    self._max_streams_semaphore.acquire()
+                # The permits are free, so this never waits, but it must not be
+                # interrupted half way: the semaphore would no longer agree
+                # with '_max_streams'.
+                with ShieldCancellation():
+                    for _ in range(local_settings_max_streams - self._max_streams):
+                        self._max_streams_semaphore.acquire()
 
         self._max_streams_semaphore.acquire()
 
